@@ -349,6 +349,34 @@ func c19Kinds(c *Ctx, r *Result) {
 			argConv = fn
 		}
 	}
+	if resConv == nil {
+		// a conversion of results written as a Go type switch over the predeclared numeric types
+		for _, fn := range c.ModFuncs() {
+			if c.PkgOf(fn) != "stdlib" || fn.Parent() != nil {
+				continue
+			}
+			nAssert := 0
+			allInstrs(fn, func(in ssa.Instruction) {
+				if ta, ok := in.(*ssa.TypeAssert); ok && ta.CommaOk {
+					if b, ok := ta.AssertedType.(*types.Basic); ok && b.Info()&types.IsNumeric != 0 {
+						nAssert++
+					}
+				}
+			})
+			takesValue := false
+			for _, p := range fn.Params {
+				if strings.HasSuffix(p.Type().String(), "reflect.Value") {
+					takesValue = true
+				}
+			}
+			if nAssert >= 5 && takesValue {
+				site := c.FuncKey(fn) + "#result-conversion"
+				r.Instance("R19b-res", site, c.Pos(fn.Pos()), "finding", "result conversion by type identity", true)
+				r.Report(Finding{Rule: "R19b-res", Site: site, Pos: c.Pos(fn.Pos()),
+					Msg: c.FuncKey(fn) + ": results are converted by a type switch over the predeclared numeric types. A type switch matches type identity, not kind: a result of a defined numeric type (time.Duration, os.FileMode, any `type X float32`) matches no case and reaches ECAL as a raw Go value — arithmetic on it fails and comparison with a number is silently false. The conversion has to go by reflect.Kind"})
+			}
+		}
+	}
 	if argConv == nil || resConv == nil {
 		r.Undecide("R19b: the two kind switches of the adapter were not found (argument conversion: %v, result conversion: %v)", argConv != nil, resConv != nil)
 		return
